@@ -30,8 +30,9 @@ namespace xtl
         std::string output;
         int val = 0;
         int valb = -8;
-        for (char c : input)
+        for (char sc : input)
         {
+            unsigned char c = static_cast<unsigned char>(sc);
             if (T[std::size_t(c)] == -1)
             {
                 break;
